@@ -150,9 +150,10 @@ func NewWorld(orbiterGenesisOverride json.RawMessage) (w *World, initErr error) 
 	w.addAcct("M", fixedAddr("mallory-M"))
 	w.addAcct("cctp", authtypes.NewModuleAddress("cctp"))
 	w.addAcct("warp", authtypes.NewModuleAddress("warp"))
+	w.addAcct("hyp", authtypes.NewModuleAddress("hyperlane"))
 	w.addAcct("xfer", authtypes.NewModuleAddress("transfer"))
 	w.addAcct("pool", fixedAddr("swap-pool"))
-	w.tracked = []string{"orb", "dust", "esc0", "esc1", "U", "F1", "F2", "M", "cctp", "warp", "xfer", "pool"}
+	w.tracked = []string{"orb", "dust", "esc0", "esc1", "U", "F1", "F2", "M", "cctp", "warp", "hyp", "xfer", "pool"}
 	auth, err := sdk.AccAddressFromBech32(authorityAddr)
 	must(err)
 	w.acct["AUTH"] = auth
@@ -283,6 +284,13 @@ func NewWorld(orbiterGenesisOverride json.RawMessage) (w *World, initErr error) 
 	w.addB32("T2", t2.Bytes())
 	w.addB32("H_NOOP", hook2.Bytes())
 	w.addB32("H_DEFAULT", hookID.Bytes())
+	// an interchain gas paymaster charging in ustake: required payment = gas limit (price 1, rate 1:1)
+	igp := w.run(ctx, &pdtypes.MsgCreateIgp{Owner: w.owner, Denom: "ustake"}).(*pdtypes.MsgCreateIgpResponse).Id
+	for _, d := range []uint32{1, 2} {
+		w.run(ctx, &pdtypes.MsgSetDestinationGasConfig{Owner: w.owner, IgpId: igp, DestinationGasConfig: &pdtypes.DestinationGasConfig{
+			RemoteDomain: d, GasOracle: &pdtypes.GasOracle{TokenExchangeRate: math.NewInt(10_000_000_000), GasPrice: math.NewInt(1)}, GasOverhead: math.NewInt(0)}})
+	}
+	w.addB32("H_IGP", igp.Bytes())
 
 	mod, ok := app.IBCKeeper.Router.GetRoute("transfer")
 	if !ok {
